@@ -5,7 +5,8 @@ Model driver for C11. Line protocol (single spaces; "-" = empty list / empty str
       entry = raw | puthb | putb | puthr:<dataBytes> | puthrx:<dataBytes>   (puthrx: the stream given to
               PutHR delivers the data and then fails with an error instead of EOF)
       svc   = <uuid>:<d|p>:<w|r>:<out,out,...>        (d = disk, p = proxy; w = writable, r = read-only)
-      out   = e                       connection error
+      out   = e | er | es | et | eo | eh   connection error (opaque, refused, reset, timeout,
+                                      unexpected EOF, no route): all the same to the model
             | k                       honest store: 200 "<hash>+<len>" / replicas 1 if md5(body) = hash, else 422
             | <code>[H<hex>][B<hex>]  fixed answer: status, X-Keep-Replicas-Stored value, body
       The i-th `out` of a service answers its i-th request; a request beyond the list is answered
@@ -16,13 +17,18 @@ Model driver for C11. Line protocol (single spaces; "-" = empty list / empty str
       at the return (sorted by service)
 
   seq <k> <the 7 fields of a put> x k     -- k puts, one after the other, on ONE client; the puts
-      list the same services (uuid, type, writable) and use raw/puthb/putb; scripts, want, retries,
-      data and picks are per put. The client keeps no state between calls, so the model answer is
-      the k independent answers.
+      list the same service uuids and use raw/puthb/putb; type and read-only flag of the services,
+      scripts, want, retries, data and picks are per put (the client is given the service list again
+      before every later put: LoadKeepServicesFromJSON, or a refreshed discovery answer). The client
+      keeps no state between calls and a reload replaces what it knew (Model.reload), so the model
+      answer is the k independent answers.
     -> <answer 1> / <answer 2> / ...
 
   upl <e | <code>[H<hex>][B<hex>][X]>      X = the body fails with a non-EOF error after its bytes
     -> <statusCode> <replicasStored> <responsehex, only for 200>
+
+  reload <json|api> <k> <list 1> ... <list k>    -- ONE client is given k service lists in a row
+    -> as for load (what it holds at the end)
 
   disc api <uuid,host,port,ssl,type,ro;...>     -- a fresh client discovers its services from a stub
                                                    API server (discoverServices, cache, poll, Call)
@@ -57,7 +63,7 @@ inductive Out where
 
 /-- `<code>[H<hex>][B<hex>][X]` -/
 def parseOut (t : String) : Option Out :=
-  if t == "e" then some .err
+  if t == "e" || t == "er" || t == "es" || t == "et" || t == "eo" || t == "eh" then some .err
   else if t == "k" then some .honest
   else
     let cs := t.toList
@@ -210,9 +216,10 @@ def chunks7 : List String → Option (List (List String))
   | a :: b :: c :: d :: e :: f :: g :: rest => (chunks7 rest).map (fun t => [a, b, c, d, e, f, g] :: t)
   | _ => none
 
-/-- uuid:type:writable of every service of a put's service field (scripts dropped) -/
+/-- the uuids of the services of a put's service field (type and read-only flag may change between
+the puts of a sequence: the client is given the list again before each put) -/
 def svcKey (svcs : String) : List (List String) :=
-  (svcs.splitOn ";").map fun s => (s.splitOn ":").take 3
+  (svcs.splitOn ";").map fun s => (s.splitOn ":").take 1
 
 def seqOf (k : String) (rest : List String) : String :=
   match k.toNat?, chunks7 rest with
@@ -246,6 +253,14 @@ def step (line : String) : String :=
   | ["disc", "uris", uris] =>
     let r := discoverURIs ((splitOr "," uris).map String.toList)
     s!"L={showMap r.locals} W={showMap r.writable} G={showMap r.gateways} rps={r.rps} nd={if r.nonDisk then 1 else 0} asked=-"
+  | "reload" :: mode :: k :: lists =>
+    if mode != "json" && mode != "api" then "bad-op" else
+    match k.toNat?, lists.mapM (fun l => (splitOr ";" l).mapM parseLoadSvc) with
+    | some n, some ls =>
+      if n == 0 || ls.length != n then "bad-op" else
+      let r := reload false ls
+      s!"L={showMap r.locals} W={showMap r.writable} G={showMap r.gateways} rps={r.rps} nd={if r.nonDisk then 1 else 0}"
+    | _, _ => "bad-op"
   | ["load", nd0, svcs] =>
     if nd0 != "0" && nd0 != "1" then "bad-op" else
     match (splitOr ";" svcs).mapM parseLoadSvc with
